@@ -27,6 +27,11 @@ def main():
                 if r["status"] == "unknown":
                     print("      UNKNOWN:", r.get("reason", "")[:200])
                     break
+        import os
+        if os.environ.get("PYVC_DUMP"):
+            for r in rep.obligations:
+                print("     ", r["name"].split("#")[1], r["status"], r.get("seconds"), r.get("backend"), "L%s" % r.get("line"), (r.get("conjunct") or "")[:160].replace("\n", " "))
+            print("   explore seconds:", round(rep.seconds - 0, 1), "solver(sum):", round(rep.solver_seconds, 1))
         if rep.dropped:
             print("   dropped:", sorted(rep.dropped))
 
